@@ -94,12 +94,12 @@ def evaluate(inp):
     tokens = tuple(tuple(t) for t in inp['tokens'])
     ast = G.parse(tokens)
     if not G.mult_units_ok(ast):
-        return Verdict(skip=True)
+        return Verdict(skip=True, outcome='excluded-multiplied-unit-shape')
     long_toks = G.expand_mult(tokens)
     try:
         exp_nodes, exp_edges = c04.expected_graph(long_toks)
     except G.NotSimple:
-        return Verdict(skip=True)
+        return Verdict(skip=True, outcome='longhand-not-a-simple-graph')
     long_s = G.ser(long_toks)
     only_node_mult = not any(t[0] == 'm' and tokens[i - 1][0] != 'n' for i, t in enumerate(tokens))
     nontrivial = any(t[0] == 'm' and t[1] >= 2 for t in tokens)
@@ -110,7 +110,7 @@ def evaluate(inp):
         return bad('longhand-raises:' + type(e).__name__, expected, repr(e)[:200], nontrivial=nontrivial)
     if c04.compare(g_long, exp_nodes, exp_edges):
         # the longhand itself is misread: C04's finding, do not double count here
-        return Verdict(skip=True)
+        return Verdict(skip=True, outcome='longhand-misread(C04)')
     try:
         g_short = read_cgsmiles(inp['s'])
     except Exception as e:
